@@ -259,8 +259,17 @@ def run_history(rec, case):
     script = [rng.choice([None, None, None, True, False, 'no', 'raise', 0,
                           'raise-type'])
               for _ in range(8)]
-    sim = scen.make_sim(srv, server_kwargs={'ping_interval': pi,
-                                            'ping_timeout': pt},
+    # some applications handle messages synchronously and slowly: frames a
+    # client sends in a burst pile up in front of the handler (in the driver,
+    # in the framework's buffers) - and the client may be gone before they
+    # are worked off
+    bursty = rng.random() < 0.2
+    skw = {'ping_interval': pi, 'ping_timeout': pt}
+    if bursty:
+        skw['async_handlers'] = False
+        hcfg['suspend'] = {'message': rng.choice([0.05, 0.25])}
+        rec.count('histories_with_slow_synchronous_handlers')
+    sim = scen.make_sim(srv, server_kwargs=skw,
                         handler_cfg=dict(hcfg, connect=script, boom=boom),
                         policy='random', seed=rng.randrange(1 << 30),
                         yield_prob=rng.choice([0.0, 0.3]),
@@ -297,6 +306,27 @@ def run_history(rec, case):
                 break
             s = rng.choice(live)
             k = rng.random()
+            if bursty and s.mode == 'websocket' and s.ws is not None and \
+                    not getattr(s, 'gone', False) and k < 0.5:
+                # a burst of frames, then the connection is closed / lost
+                # while most of them are still waiting for the handler
+                nb = rng.choice([3, 17, 24])
+                for _ in range(nb):
+                    uid, data, wire = R.up_payload(s, 'text')
+                    R.ws_send(s, wire)
+                causes_used.add('wsclose')
+                R.ws_close(s, 'close')
+                if (nb + 3) * hcfg['suspend']['message'] >= pt / 2.0:
+                    # the Close sits behind a backlog the application takes
+                    # that long to work off, and the client answers no PING
+                    # any more: a ping timeout may truly come first. (A
+                    # PING older than ping_timeout / 2 was answered, so no
+                    # deadline can fall inside a shorter backlog.)
+                    R.causes.append({'s': s.n, 'cause': 'silence',
+                                     'c_start': sim.tick(), 't': sim.now})
+                rec.count('frame_bursts_then_close')
+                sim.quiesce()
+                continue
             if k < 0.2:
                 R.send(s, ('text', 'json', 'binary', 'text')[len(R.sends) % 4])
             elif k < 0.4:
